@@ -203,10 +203,10 @@ def generate_all(operation: Operation, sample_cache: SampleCache, valid_values: 
             param_root.add_transition(NoOpLeaf(is_valid=not param.required))
         samples = sample_cache.add(param.schema, False)
         try:
-            samples.valid = valid_values[param.name]
+            valid_samples = valid_values[param.name]
         except KeyError:
-            pass
-        for sample in samples.valid:
+            valid_samples = samples.valid
+        for sample in valid_samples:
             param_root.add_transition(InsertParamLeaf(True, param, sample))
         for sample in samples.invalid:
             param_root.add_transition(InsertParamLeaf(False, param, sample))
